@@ -68,6 +68,8 @@ def translate():
         track_last = True
     else:
         raise TranslationError("_validate_data_flow_compatibility: unknown shape")
+    if "if not _is_compatible(current_node.output_type, next_node.input_type):" not in vsrc:
+        raise TranslationError("_validate_data_flow_compatibility: the per-edge test is not `not _is_compatible(prev.output, next.input)`")
     comp = ast.unparse(find_def(vtree, "_is_compatible", ast.FunctionDef))
     if "prev_out_type == next_in_type or issubclass(prev_out_type, next_in_type)" not in comp:
         raise TranslationError("_is_compatible: unknown rule")
